@@ -95,12 +95,13 @@ class AddressType(StringType, prim='address'):
         return f'{self.value[:6]}…{self.value[-3:]}'
 
     def __lt__(self, other: 'AddressType') -> bool:  # type: ignore
-        if is_pkh(self.value) and is_kt(other.value):
-            return True
-        elif is_kt(self.value) and is_pkh(other.value):
-            return False
-        else:
-            return self.value < other.value
+        return self._order_key() < other._order_key()
+
+    def _order_key(self):
+        # implicit < originated < smart rollup, then the address itself, then the entrypoint
+        address, _, entrypoint = self.value.partition('%')
+        kind = 0 if is_pkh(address) else 1 if is_kt(address) else 2
+        return kind, address, entrypoint or 'default'
 
     @classmethod
     def dummy(cls, context: AbstractContext) -> 'AddressType':
